@@ -274,6 +274,10 @@ def member_archive(c, k):
         return "t.tar.gz", TF.tarforge(members, compression="gz")
     if c in ("7z-copy", "7z-lzma2"):
         return "t.7z", SZ.sevenz(members, {"coder": c.split("-")[1], "layout": "per_file"})
+    if c in ("7z-copy-solid", "7z-lzma2-solid", "7z-copy-solid-last", "7z-lzma2-solid-last"):
+        # one folder holding both members: the folder has to be decoded to reach ok.txt, but big.txt still must not land on disk
+        ms = members[::-1] if c.endswith("-last") else members
+        return "t.7z", SZ.sevenz(ms, {"coder": c.split("-")[1], "layout": "solid"})
     raise ValueError(c)
 
 
@@ -374,7 +378,7 @@ def eval_member_limit(case):
         for h in mon.hits:
             if h[0] in ("ZipFile.read", "ZipFile.open", "TarFile.extractfile") and h[1] in ("big.txt", "alias.txt"):
                 bad.append(f"{h[0]}(big.txt)")
-            elif h[0] == "LZMADecompressor.decompress" and h[1] >= k:
+            elif h[0] == "LZMADecompressor.decompress" and h[1] >= k and "-solid" not in case["c"]:
                 bad.append(f"LZMADecompressor.decompress -> {h[1]} bytes")
             elif h[0] == "open-for-writing" and os.path.basename(h[1]) == "big.txt":
                 bad.append(f"open({h[1]!r}, 'wb')")
@@ -569,7 +573,8 @@ def cases(tier):
     for via in ("extractor", "read_file0", "read_file"):
         for d in (-1, 0, 1):
             out.append({"k": "7z_limit", "via": via, "d": d})
-    for c in ("zip-s", "zip-d", "tar", "tar.gz", "tar-lnk", "tar-sym", "tar.gz-lnk", "7z-copy", "7z-lzma2"):
+    for c in ("zip-s", "zip-d", "tar", "tar.gz", "tar-lnk", "tar-sym", "tar.gz-lnk", "7z-copy", "7z-lzma2",
+              "7z-copy-solid", "7z-lzma2-solid", "7z-copy-solid-last", "7z-lzma2-solid-last"):
         for L in (None, 1000, 65536):
             for d in (-1, 0, 1):
                 out.append({"k": "member_limit", "c": c, "L": L, "d": d})
